@@ -4,6 +4,7 @@
 From Coq Require Import List Arith Bool NArith.
 From Conductor Require Import Model.Loader Model.Planner Model.Exec Model.RunCase
   Proofs.ExecInv Proofs.ExecTheorems Proofs.ExecMain Proofs.PlannerInv Proofs.PlannerExact Proofs.PlannerOrder Proofs.Compose Proofs.ComposeExec Proofs.ComposeOrder.
+From Conductor Require Import Gen.Generated Proofs.GenTie.
 Import ListNotations.
 
 (* [trace s] lists the events newest first.  If operation x is started at some point of the run,
@@ -110,6 +111,23 @@ Proof.
   intros [H|[]]. discriminate.
 Qed.
 Print Assumptions C01_full_refuted.
+
+(* Tie to the sources, re-checked on every run: WHEN a dependent becomes ready.  _process_finished_op as TRANSLATED from
+   executor.py of the working tree: the finished operation is appended to the completed list, the counter of every dependent
+   is decremented once per edge, and a dependent (in deps_of order) joins the ready queues exactly when the translated test on
+   its counter says so (gen_enqueue_dependent: not `waiting_on > 0`) -- the model's process_finished, on which C01_op_order
+   rests, is that function. *)
+Theorem C01_ready_rule_is_the_sources : forall p s o,
+  let ds := deps_of p o in
+  let w' := fun x => (waiting s x - Planner.count x ds)%nat in
+  let newly := filter (fun d => gen_enqueue_dependent (w' d)) ds in
+  readyS (process_finished p s o) = readyS s ++ filter (fun d => negb (is_par p d)) newly /\
+  readyP (process_finished p s o) = readyP s ++ filter (is_par p) newly /\
+  completed (process_finished p s o) = completed s ++ [o] /\
+  (forall x, waiting (process_finished p s o) x = w' x) /\
+  gen_finished_op_steps = [1%N; 2%N; 3%N].
+Proof. exact process_finished_tie. Qed.
+Print Assumptions C01_ready_rule_is_the_sources.
 
 (* non-vacuity of the end-to-end theorem: the F1 project itself is accepted, planned and executed *)
 Example C01_end_to_end_nonvacuous :
